@@ -4,6 +4,7 @@ import (
 	"fmt"
 	"math"
 	"math/rand"
+	"sort"
 
 	"github.com/aclements/go-moremath/stats"
 )
@@ -14,7 +15,8 @@ import (
 //
 //	kind 0  stats.TDist{V: A}                       0.01 <= V <= 1e9
 //	kind 1  stats.UDist{N1: N, N2: K, T: T}
-//	kind 2  stats.KDE{Sample: Xs, Bandwidth: B, Kernel: D (0 Epanechnikov, 1 Gaussian, 2 Delta)}
+//	kind 2  stats.KDE{Sample: Xs (Weights: T), Bandwidth: B, Kernel: D (0 Epanechnikov, 1 Gaussian, 2 Delta),
+//	        BoundaryMin/Max by K and A}
 //	kind 3  stats.BinomialDist{N, P}                N <= 1000
 //	kind 4  stats.HypergeometicDist{N, K, Draws: D} N <= 1000
 //	kind 5  stats.NormalDist{Mu: A, Sigma: B}       (own InvCDF and Rand methods)
@@ -117,9 +119,6 @@ func (d c07Power) CDF(x float64) float64 {
 }
 func (d c07Power) Bounds() (float64, float64) { return d.a - 100*d.s, d.a + 100*d.s }
 
-var _ stats.DiscreteDist = (*c07Geom)(nil)
-var _ stats.DiscreteDist = (*c07Pois)(nil)
-
 func c07RelDist(c *c07Case) (stats.DistCommon, error) {
 	fin := func(xs ...float64) bool {
 		for _, x := range xs {
@@ -167,7 +166,46 @@ func c07RelDist(c *c07Case) (stats.DistCommon, error) {
 		if c.D < 0 || c.D > 2 {
 			return nil, fmt.Errorf("bad kernel")
 		}
-		return &stats.KDE{Sample: stats.Sample{Xs: xs}, Bandwidth: b, Kernel: []stats.KDEKernel{stats.EpanechnikovKernel, stats.GaussianKernel, stats.DeltaKernel}[c.D]}, nil
+		kde := &stats.KDE{Sample: stats.Sample{Xs: xs}, Bandwidth: b, Kernel: []stats.KDEKernel{stats.EpanechnikovKernel, stats.GaussianKernel, stats.DeltaKernel}[c.D]}
+		if c.T != nil { // sample weights
+			if len(c.T) != len(xs) {
+				return nil, fmt.Errorf("bad kde weights")
+			}
+			sum := 0
+			for _, w := range c.T {
+				if w < 0 || w > 1000000 {
+					return nil, fmt.Errorf("bad kde weights")
+				}
+				sum += w
+				kde.Sample.Weights = append(kde.Sample.Weights, float64(w))
+			}
+			if sum == 0 {
+				return nil, fmt.Errorf("bad kde weights")
+			}
+		}
+		// boundary correction (BoundaryReflect): K = 1 lower bound, 2 upper bound, 3 both, at distance A >= 0
+		// beyond the smallest / largest sample value
+		if c.K != 0 {
+			m := float64(c.A)
+			if c.K < 0 || c.K > 3 || !(m >= 0 && m <= 1e6) {
+				return nil, fmt.Errorf("bad kde boundary")
+			}
+			lo, hi := xs[0], xs[0]
+			for _, x := range xs {
+				lo, hi = math.Min(lo, x), math.Max(hi, x)
+			}
+			kde.BoundaryMin, kde.BoundaryMax = math.Inf(-1), math.Inf(1)
+			if c.K&1 != 0 {
+				kde.BoundaryMin = lo - m
+			}
+			if c.K&2 != 0 {
+				kde.BoundaryMax = hi + m + 1 // [min, max): the largest sample value stays inside
+			}
+			if kde.BoundaryMin == 0 && kde.BoundaryMax == 0 {
+				return nil, fmt.Errorf("bad kde boundary")
+			}
+		}
+		return kde, nil
 	case 3:
 		p := float64(c.P)
 		if c.N < 0 || c.N > 1000 || !(p >= 0 && p <= 1) {
@@ -251,29 +289,36 @@ func c07RelDist(c *c07Case) (stats.DistCommon, error) {
 var c07LastProbe = math.Ldexp(1, 1023)
 
 type c07Rel struct {
-	dist stats.DistCommon
-	inv  func(float64) float64 // stats.InvCDF(dist)
-	ref  func(float64) float64 // the distribution's own method, or stats.InvCDF of the bare wrapper
-	own  int                   // bit 0: has its own InvCDF method, bit 1: has its own Rand method
-	rref func(*rand.Rand) float64
+	dist  stats.DistCommon
+	inv   func(float64) float64 // stats.InvCDF(dist)
+	ref   func(float64) float64 // the distribution's own method, or stats.InvCDF of the bare wrapper
+	own   int                   // bit 0: has its own InvCDF method, bit 1: has its own Rand method
+	rref  func(*rand.Rand) float64
+	grand func(*rand.Rand) float64 // stats.Rand(dist)
 }
 
+// The header: kind par own hst bl bh cbl cbh cpl cph.  hst: 0 fine; 2 Bounds / CDF panicked; 3 stats.InvCDF or
+// stats.Rand (the constructors) panicked.  Only the case JSON can make this function fail: whatever the
+// LIBRARY does (panics, methods it has or lacks) is an observation in the line.  With hst != 0 the line ends
+// after the header.
 func c07RelHeader(l *Line, c *c07Case) (*c07Rel, error) {
 	dist, err := c07RelDist(c)
 	if err != nil {
 		return nil, err
 	}
 	var bl, bh, cbl, cbh, cpl, cph float64
-	if pan, msg := catch(func() {
+	hst := 0
+	if pan, _ := catch(func() {
 		bl, bh = dist.Bounds()
 		cbl, cbh = dist.CDF(bl), dist.CDF(bh)
 		cpl, cph = dist.CDF(-c07LastProbe), dist.CDF(c07LastProbe)
 	}); pan {
-		return nil, fmt.Errorf("distribution unusable: %s", msg)
+		hst = 2
 	}
 	r := &c07Rel{dist: dist}
-	if pan, msg := catch(func() {
+	if pan, _ := catch(func() {
 		r.inv = stats.InvCDF(dist)
+		r.grand = stats.Rand(dist)
 		if m, ok := dist.(interface{ InvCDF(float64) float64 }); ok {
 			r.own |= 1
 			r.ref = m.InvCDF
@@ -294,10 +339,13 @@ func c07RelHeader(l *Line, c *c07Case) (*c07Rel, error) {
 				return inv2(y)
 			}
 		}
-	}); pan {
-		return nil, fmt.Errorf("InvCDF unusable: %s", msg)
+	}); pan && hst == 0 {
+		hst = 3
 	}
-	l.I(c.Kind).F(float64(c.A)).I(r.own).F(bl).F(bh).F(cbl).F(cbh).F(cpl).F(cph)
+	l.I(c.Kind).F(float64(c.A)).I(r.own).I(hst).F(bl).F(bh).F(cbl).F(cbh).F(cpl).F(cph)
+	if hst != 0 {
+		return nil, nil
+	}
 	return r, nil
 }
 
@@ -321,7 +369,7 @@ func c07RunRel(l *Line, c *c07Case) error {
 		return fmt.Errorf("too many seeds")
 	}
 	r, err := c07RelHeader(l, c)
-	if err != nil {
+	if err != nil || r == nil {
 		return err
 	}
 	l.I(len(c.Ys))
@@ -329,10 +377,7 @@ func c07RunRel(l *Line, c *c07Case) error {
 		r.item(l, float64(y))
 	}
 	// stats.Rand(dist) next to the reference generator, equally seeded sources
-	var grand func(*rand.Rand) float64
-	if pan, msg := catch(func() { grand = stats.Rand(r.dist) }); pan {
-		return fmt.Errorf("Rand unusable: %s", msg)
-	}
+	grand := r.grand
 	l.I(3 * len(c.Seeds))
 	for _, s := range c.Seeds {
 		r1, r2 := rand.New(rand.NewSource(s)), rand.New(rand.NewSource(s))
@@ -364,17 +409,49 @@ func c07CheckSrc(src []int64) error {
 	return nil
 }
 
-// op 7: 7 7 kind par own bl bh cbl cbh cpl cph  nsrc {int63}*  st consumed y draw  {y ist x xm c0 cm xp cp rst ref}
+// op 7, the distribution has NO Rand method of its own (generic generator, scripted source):
+//
+//	7 7 hdr  nsrc {int63}*  st consumed y draw  {y ist x xm c0 cm xp cp rst ref}
+//
+// op 7, the distribution HAS its own Rand method (today: NormalDist): the identity with InvCDF is not
+// demanded; what is observed is determinism — two equally seeded math/rand sources (seed derived from the
+// scripted values), 8 draws each:
+//
+//	7 9 hdr  n {st1 draw1 st2 draw2}*
+//
+// (the law of an own generator is the subject of op 10)
 func c07RunRandRel(l *Line, c *c07Case) error {
 	if err := c07CheckSrc(c.Src); err != nil {
 		return err
 	}
-	r, err := c07RelHeader(l, c)
+	// which of the two lines it is depends on the library: the op token is decided here
+	probe, err := c07RelDist(c)
 	if err != nil {
 		return err
 	}
-	if r.own&2 != 0 {
-		return fmt.Errorf("the distribution has its own Rand method: nothing generic to observe")
+	_, ownRand := probe.(interface{ Rand(*rand.Rand) float64 })
+	if ownRand {
+		l.I(9)
+	} else {
+		l.I(7)
+	}
+	r, err := c07RelHeader(l, c)
+	if err != nil || r == nil {
+		return err
+	}
+	if ownRand {
+		var seed int64
+		for _, v := range c.Src {
+			seed = seed*1000003 + v>>10
+		}
+		r1, r2 := rand.New(rand.NewSource(seed)), rand.New(rand.NewSource(seed))
+		l.I(8)
+		for j := 0; j < 8; j++ {
+			s1, d1 := c07Call(func(float64) float64 { return r.grand(r1) }, 0)
+			s2, d2 := c07Call(func(float64) float64 { return r.grand(r2) }, 0)
+			l.I(s1).F(d1).I(s2).F(d2)
+		}
+		return nil
 	}
 	l.I(len(c.Src))
 	for _, v := range c.Src {
@@ -382,7 +459,7 @@ func c07RunRandRel(l *Line, c *c07Case) error {
 	}
 	src := &c07Src{vals: append([]int64(nil), c.Src...)}
 	var draw float64
-	pan, _ := catch(func() { draw = stats.Rand(r.dist)(rand.New(src)) })
+	pan, _ := catch(func() { draw = r.grand(rand.New(src)) })
 	st := 0
 	if pan {
 		st = 2
@@ -393,5 +470,47 @@ func c07RunRandRel(l *Line, c *c07Case) error {
 	}
 	l.I(st).I(src.pos).F(y).F(draw)
 	r.item(l, y)
+	return nil
+}
+
+// op 10: 7 10 hdr  st  n {v cm cp}*   — the N draws of stats.Rand(dist) from rand.New(rand.NewSource(Seeds[0])),
+// sorted, each with the distribution's own cdf just below and just above it (v -+ (1e-9|v| + 1e-15))
+func c07RunKSRel(l *Line, c *c07Case) error {
+	if len(c.Seeds) != 1 {
+		return fmt.Errorf("bad seed")
+	}
+	// N is a distribution parameter for some kinds: the draw count travels in Draws
+	r, err := c07RelHeader(l, c)
+	if err != nil || r == nil {
+		return err
+	}
+	n := c.Draws
+	if n < 1 || n > 1<<16 {
+		return fmt.Errorf("bad draw count")
+	}
+	xs := make([]float64, n)
+	st := 0
+	if pan, _ := catch(func() {
+		rr := rand.New(rand.NewSource(c.Seeds[0]))
+		for i := range xs {
+			xs[i] = r.grand(rr)
+		}
+	}); pan {
+		st = 2
+	}
+	sort.Float64s(xs)
+	cm, cp := make([]float64, n), make([]float64, n)
+	if pan, _ := catch(func() {
+		for i, v := range xs {
+			tol := 1e-9*math.Abs(v) + 1e-15
+			cm[i], cp[i] = r.dist.CDF(v-tol), r.dist.CDF(v+tol)
+		}
+	}); pan && st == 0 {
+		st = 3
+	}
+	l.I(st).I(n)
+	for i, v := range xs {
+		l.F(v).F(cm[i]).F(cp[i])
+	}
 	return nil
 }
